@@ -455,22 +455,41 @@ static const parquet_schema_element_t* leaf_elem(carquet_reader_t* r, int col) {
 /* Everything the API offers on an error record / status / enum value that came out of an untrusted file:
  * strings must be terminated, carquet_error_format must stay inside the buffer it is given. */
 static int g_errfmt_bad = 0;
+static void ex_error_format_one(const carquet_error_t* e, size_t sz) {
+    /* exact-size heap buffer: the text must be terminated inside it and the returned length must not exceed the
+     * length of the text */
+    char* buf = malloc(sz);
+    memset(buf, 'x', sz);
+    int w = carquet_error_format(e, buf, sz);
+    const char* nul = memchr(buf, 0, sz);
+    if (w < 0 || (size_t)w >= sz || !nul || (size_t)w > (size_t)(nul - buf)) g_errfmt_bad++;
+    free(buf);
+}
+static void ex_error_format_sizes(const carquet_error_t* e, size_t back) {
+    /* the optional pieces (location, hint) are appended at the end, each only if it fits: every buffer size from
+     * `back` below the full length to two above it meets each boundary "the next piece just fits / just does
+     * not"; plus the very small sizes and a large one */
+    char big[4096];
+    (void)carquet_error_format(e, big, sizeof(big));
+    size_t L = strlen(big);
+    touch(big, L);
+    for (size_t sz = 1; sz <= 9; sz++) ex_error_format_one(e, sz);
+    for (size_t sz = L > back ? L - back : 10; sz <= L + 2; sz++) ex_error_format_one(e, sz);
+    ex_error_format_one(e, 1200);
+}
+static int g_errfmt_full = 0;
 static void ex_error_record(const carquet_error_t* e) {
-    static const size_t sizes[] = {1, 2, 9, 40, 100, 300, 1200};
-    for (size_t i = 0; i < sizeof(sizes) / sizeof(sizes[0]); i++) {
-        char* buf = malloc(sizes[i]);
-        memset(buf, 'x', sizes[i]);
-        int w = carquet_error_format(e, buf, sizes[i]);
-        if (w < 0 || (size_t)w >= sizes[i] + (sizes[i] == 0) || !memchr(buf, 0, sizes[i])) g_errfmt_bad++;
-        free(buf);
+    ex_error_format_sizes(e, g_errfmt_full ? 600 : 130);
+    /* the same with the location pieces present (the library itself never sets them; a caller can) */
+    static const struct { int64_t off; int32_t rg, col; } ctx[] = {
+        {INT64_MAX, INT32_MAX, INT32_MAX}, {0, 0, 0}, {12345, -1, -1}, {-1, 1, -1}, {-1, -1, 2}};
+    for (size_t i = 0; i < (g_errfmt_full ? sizeof(ctx) / sizeof(ctx[0]) : 1); i++) {
+        carquet_error_t c2; carquet_error_init(&c2);
+        carquet_error_copy(&c2, e);
+        carquet_error_set_context(&c2, ctx[i].off, ctx[i].rg, ctx[i].col);
+        ex_error_format_sizes(&c2, g_errfmt_full ? 600 : 190);
+        carquet_error_clear(&c2);
     }
-    carquet_error_t c2; carquet_error_init(&c2);
-    carquet_error_copy(&c2, e);
-    carquet_error_set_context(&c2, 12345, 1, 2);
-    char big[2048];
-    (void)carquet_error_format(&c2, big, sizeof(big));
-    touch(big, strlen(big));
-    carquet_error_clear(&c2);
     const char* h = carquet_error_recovery_hint(e->code);
     if (h) touch(h, strlen(h));
     (void)carquet_error_is_recoverable(e->code);
@@ -533,6 +552,17 @@ static void ex_metadata(carquet_reader_t* r, stats_t* st) {
         int inrange = probes[k] >= 0 && probes[k] < nrg;
         if (!inrange && c == CARQUET_OK) BAD(st, 2);
         if (c != CARQUET_OK) note_err(st, (int)c);
+    }
+    /* a row group that has fewer chunks than the schema has leaves: the indices in between are not in it */
+    for (int32_t g = 0; g < nrg && g < 4; g++) {
+        int32_t rc = r->metadata.row_groups[g].num_columns;
+        for (int32_t c = rc; c >= 0 && c < nc && c < rc + 3; c++) {
+            carquet_error_t e = CARQUET_ERROR_INIT;
+            carquet_column_reader_t* col = carquet_reader_get_column(r, g, c, &e);
+            st->calls++;
+            if (col) { BAD(st, 18); carquet_column_reader_free(col); } else if (!err_ok(&e)) BAD(st, 19);
+            if (carquet_reader_can_zero_copy(r, g, c)) BAD(st, 20);
+        }
     }
     /* out-of-range get_column indices must be reported as errors, with a code and a terminated message */
     int32_t cprobes[] = {-1, nc, nc + 1, INT32_MAX, INT32_MIN};
@@ -1186,6 +1216,7 @@ static void probe_child(void* vctx, FILE* out) {
 typedef struct { int len; const char* path; } longerr_ctx;
 
 static void longerr_child(void* vctx, FILE* out) {
+    g_errfmt_full = 1;
     longerr_ctx* cx = (longerr_ctx*)vctx;
     int len = cx->len < 8 ? 8 : cx->len;
     int bad = 0, calls = 0, codes[8], nc = 0;
